@@ -24,7 +24,14 @@ pub static ENGINE: std::sync::OnceLock<&'static str> = std::sync::OnceLock::new(
 /// The case each driver thread is evaluating right now, as a complete replay file.
 static INFLIGHT: Mutex<Vec<Option<String>>> = Mutex::new(Vec::new());
 
+/// Hook through which the engine's `main` can register the case in flight with a crash
+/// guard (fatal signal while a case is evaluated => the case is saved and reported).
+pub static CRASH_HOOK: std::sync::OnceLock<fn(&str)> = std::sync::OnceLock::new();
+
 fn inflight_set(slot: usize, v: Option<String>) {
+    if let (Some(h), Some(s)) = (CRASH_HOOK.get(), v.as_ref()) {
+        h(s);
+    }
     if let Ok(mut g) = INFLIGHT.lock() {
         if g.len() <= slot {
             g.resize(slot + 1, None);
